@@ -2,6 +2,7 @@ package rules
 
 import (
 	"fmt"
+	"go/constant"
 	"go/token"
 	"go/types"
 
@@ -443,16 +444,49 @@ func R20() Rule {
 		// ---- L7: countedLock.Unlock: non-blocking receive, default panics
 		{
 			var sel *ssa.Select
-			for _, b := range cUnlock.Blocks {
-				for _, in := range b.Instrs {
-					if s, ok := in.(*ssa.Select); ok {
-						sel = s
+			selFn := cUnlock
+			for _, f := range P.Scope(cUnlock, func(f *ssa.Function) bool { return core.PkgPathOf(f) != core.PkgGcsutil }) {
+				for _, b := range f.Blocks {
+					for _, in := range b.Instrs {
+						if s, ok := in.(*ssa.Select); ok {
+							sel, selFn = s, f
+						}
 					}
 				}
 			}
 			ok := sel != nil && !sel.Blocking && len(sel.States) == 1 && sel.States[0].Dir == types.RecvOnly
 			why := "countedLock.Unlock must be a non-blocking receive from ch"
-			if ok {
+			if ok && selFn != cUnlock {
+				// the receive sits in a boolean helper (`tryRelease() bool`): it answers true exactly on the
+				// receive branch, and Unlock returns normally only where the helper answered true
+				res := selFn.Signature.Results()
+				if res.Len() != 1 || !isBoolType(res.At(0).Type()) {
+					ok, why = false, "the non-blocking receive sits in a helper that does not report whether it received"
+				}
+				for _, r := range returnsIn(selFn) {
+					if !ok {
+						break
+					}
+					bv, isB := core.ConstBool(r.Results[0])
+					if !isB || bv != (selectIndexFact(sel, r.Block()) == 0) {
+						ok, why = false, "the helper does not answer true exactly when it received"
+					}
+				}
+				for _, r := range returnsIn(cUnlock) {
+					passed := false
+					for _, pc := range P.PassedValidators(r.Block()) {
+						if pc.Call.Call.StaticCallee() == selFn && pc.Want.Value != nil && pc.Want.Value.Kind() == constant.Bool && constant.BoolVal(pc.Want.Value) {
+							passed = true
+						}
+					}
+					if ok && !passed {
+						ok, why = false, "Unlock returns normally although the receive helper did not report success: unlocking an unheld key must panic"
+					}
+				}
+				if ok && len(returnsIn(cUnlock)) == 0 {
+					ok, why = false, "Unlock never returns"
+				}
+			} else if ok {
 				for _, r := range returnsIn(cUnlock) {
 					if selectIndexFact(sel, r.Block()) != 0 {
 						ok, why = false, "Unlock returns normally on the default branch (nothing was received): unlocking an unheld key must panic"
